@@ -116,7 +116,8 @@ func runR16(c *Ctx) {
 		if !ok {
 			return
 		}
-		if callee := call.Call.StaticCallee(); callee != nil && callee.Name() == "createColumn" {
+		// the column constructor: a function of the package that returns (column.Column, error)
+		if callee := call.Call.StaticCallee(); callee != nil && callee.Pkg == fn.Pkg && callee.Signature.Results().Len() == 2 && isErrorType(callee.Signature.Results().At(1).Type()) && isNamed(callee.Signature.Results().At(0).Type(), rel("internal/column"), "Column") {
 			for i := range loops {
 				if inLoop(loops[i], call.Block()) && (colLoop == nil || colLoop.header.Dominates(loops[i].header)) {
 					colLoop = &loops[i]
